@@ -2,8 +2,12 @@
 package mon
 
 import (
+	"bytes"
 	"fmt"
 	"os"
+	"os/exec"
+	"path/filepath"
+	"strings"
 	"runtime/debug"
 	"sort"
 	"strconv"
@@ -26,6 +30,7 @@ type Monitor struct {
 	Pre         func(r *evid.Run, tier string) // optional, before cases
 	Post        func(r *evid.Run, tier string) // optional, after cases
 	Serial      bool                           // run cases on one goroutine
+	InProcess   bool                           // run the cases on goroutines of this process instead of shard child processes
 }
 
 var registry = map[string]*Monitor{}
@@ -67,6 +72,13 @@ func Scale(n int) int {
 }
 
 // RunMonitor executes a monitor; only >= 0 restricts to one case (replay).
+//
+// Cases are dealt to shard child processes (one per worker), each of which runs
+// its cases one after the other on a single goroutine: a fatal error in the
+// library (stack overflow, concurrent map write) ends one shard, not the check,
+// and is reported as a violation attributed to the journaled case; and no two
+// cases ever share library state within a process except through the library's
+// own globals, which is exactly what C13 wants to observe.
 func RunMonitor(id, tier string, seed uint64, only int) int {
 	m := registry[id]
 	if m == nil {
@@ -91,11 +103,34 @@ func RunMonitor(id, tier string, seed uint64, only int) int {
 	if m.NCases != nil {
 		n = Scale(m.NCases(tier))
 	}
-	var next int64 = -1
+	switch {
+	case n == 0:
+	case only >= 0 || m.InProcess || os.Getenv("VERIF_INPROCESS") != "":
+		runInProcess(m, r, id, tier, seed, only, n, 0, 1)
+	default:
+		runSharded(m, r, id, tier, seed, n)
+	}
+	if m.Post != nil && only < 0 {
+		guard("post", func() { m.Post(r, tier) })
+	}
+	return r.Finish()
+}
+
+// runInProcess runs the cases i with i % nshards == shard.
+func runInProcess(m *Monitor, r *evid.Run, id, tier string, seed uint64, only, n, shard, nshards int) {
+	guard := func(what string, f func()) {
+		defer func() {
+			if p := recover(); p != nil {
+				r.Broken(fmt.Sprintf("harness panic in %s: %v\n%s", what, p, debug.Stack()))
+			}
+		}()
+		f()
+	}
 	workers := Workers()
-	if m.Serial {
+	if m.Serial || nshards > 1 {
 		workers = 1
 	}
+	var next int64 = -1
 	var wg sync.WaitGroup
 	for w := 0; w < workers; w++ {
 		wg.Add(1)
@@ -106,8 +141,13 @@ func RunMonitor(id, tier string, seed uint64, only int) int {
 				if i >= n {
 					return
 				}
-				if only >= 0 && i != only {
+				if (only >= 0 && i != only) || i%nshards != shard {
 					continue
+				}
+				if journal != nil {
+					journal.Truncate(0)
+					journal.Seek(0, 0)
+					fmt.Fprintf(journal, "%d\n", i)
 				}
 				t0 := time.Now()
 				guard(fmt.Sprintf("case %d", i), func() {
@@ -120,10 +160,65 @@ func RunMonitor(id, tier string, seed uint64, only int) int {
 		}()
 	}
 	wg.Wait()
-	if m.Post != nil && only < 0 {
-		guard("post", func() { m.Post(r, tier) })
+}
+
+var journal *os.File
+
+// RunShard is the entry point of a shard child process.
+func RunShard(id, tier string, seed uint64, shard, nshards int, dir string) int {
+	m := registry[id]
+	if m == nil {
+		return 2
 	}
-	return r.Finish()
+	r := evid.NewRun(id, tier, seed)
+	journal, _ = os.OpenFile(filepath.Join(dir, fmt.Sprintf("journal-%d", shard)), os.O_CREATE|os.O_WRONLY|os.O_TRUNC, 0o644)
+	n := Scale(m.NCases(tier))
+	runInProcess(m, r, id, tier, seed, -1, n, shard, nshards)
+	if err := r.ExportShard(filepath.Join(dir, fmt.Sprintf("shard-%d.json", shard))); err != nil {
+		fmt.Println("cannot export shard:", err)
+		return 2
+	}
+	return 0
+}
+
+func runSharded(m *Monitor, r *evid.Run, id, tier string, seed uint64, n int) {
+	dir := filepath.Join(evid.VerifDir, "work", id+"-shards")
+	os.RemoveAll(dir)
+	os.MkdirAll(dir, 0o755)
+	defer os.RemoveAll(dir)
+	self, _ := os.Executable()
+	nshards := Workers()
+	if nshards > n {
+		nshards = n
+	}
+	var wg sync.WaitGroup
+	var mu sync.Mutex
+	for k := 0; k < nshards; k++ {
+		wg.Add(1)
+		go func(k int) {
+			defer wg.Done()
+			cmd := exec.Command(self, "shard", id, tier, strconv.FormatUint(seed, 10), strconv.Itoa(k), strconv.Itoa(nshards), dir)
+			cmd.Stdout = os.Stdout
+			var errb bytes.Buffer
+			cmd.Stderr = &errb
+			err := cmd.Run()
+			mu.Lock()
+			defer mu.Unlock()
+			if ierr := r.ImportShard(filepath.Join(dir, fmt.Sprintf("shard-%d.json", k))); ierr != nil || err != nil {
+				// the shard process died: attribute it to the journaled case
+				jb, _ := os.ReadFile(filepath.Join(dir, fmt.Sprintf("journal-%d", k)))
+				tail := errb.String()
+				if len(tail) > 1500 {
+					tail = tail[:1500] + "…"
+				}
+				idx, _ := strconv.Atoi(strings.TrimSpace(string(jb)))
+				mu.Unlock()
+				r.Violate("process-abort", map[string]any{"case": idx, "what": fmt.Sprintf("the process running case %d of %s ended abnormally (%v): %s", idx, id, err, tail)})
+				mu.Lock()
+			}
+		}(k)
+	}
+	wg.Wait()
 }
 
 // ---- safe wrappers around the public API ----
@@ -135,7 +230,7 @@ type compiled struct {
 
 // A compiled Grammar holds its whole BSR forest (tens of KiB), so the cache is
 // bounded: it is dropped wholesale when it reaches exprCacheMax entries.
-const exprCacheMax = 4096
+const exprCacheMax = 1024
 
 var (
 	exprCacheMu sync.Mutex
